@@ -135,7 +135,8 @@ def oracle(ctx, case, obs):
     if not v["noDup"]:
         ctx.fail(Failure("duplicate", "a language or a text id appears twice", case))
     if not v["defaultOk"]:
-        ctx.fail(Failure("default-flag", f"default language {dl!r} is a translation but the default marks are "
+        ctx.fail(Failure("default-flag", f"default language is {dl!r}: exactly the translation of that name (if any) may be "
+                         f"marked default, but the marks are "
                          f"{[(t['lang'], t['default']) for t in obs['translations']]}", case))
     return v["ok"]
 
@@ -287,6 +288,29 @@ def directed_cases(rng):
                 else:
                     kw["default_language"] = dl
                 out.append({"form": form, "kw": kw})
+    # default_language is a near miss of a translation name (name without its code, other case, code alone, code glued
+    # on), and both spellings are translations: through a header typed the other way, or through an unsuffixed
+    # itext-producing column (hint + guidance_hint, media, message with ${ref}), which is filed under default_language
+    for full in ("English (en)", "Kiswahili (sw)"):
+        for near in ic.near_misses(full)[:7]:
+            for dl in (near, full):
+                for how in ("header", "unsuffixed-guidance", "unsuffixed-image", "unsuffixed-message"):
+                    q = {"type": "integer", "name": "n", f"label::{full}": "N", "label::fr": "Nf"}
+                    if how == "header":
+                        q[f"hint::{near if dl == full else full}"] = "h"
+                        q[f"hint::{dl}"] = "h2"
+                    elif how == "unsuffixed-guidance":
+                        q["hint"] = "h"
+                        q["guidance_hint"] = "g"
+                    elif how == "unsuffixed-image":
+                        q["image"] = "a.png"
+                    else:
+                        q["constraint"] = ". > 0"
+                        q["constraint_message"] = "more than ${q0}"
+                    if dl == full and how != "header":
+                        q[f"hint::{near}"] = "hn"
+                    out.append({"form": {"survey": [{"type": "text", "name": "q0", f"label::{full}": "Q0"}, q],
+                                         "settings": [{"default_language": dl}]}, "kw": {}})
     # F45 (repaired, must stay repaired): osm question whose tags have translated labels
     for tagcols in (["label::en", "label::fr"], ["label::en"], ["label"]):
         tags = []
